@@ -327,7 +327,7 @@ func run(c *simrun.Ctx) *simrun.Violation {
 	}
 	if src > 3 {
 		srcName = "random"
-		set := shapesdesc.RandomSet(t, shapesdesc.RandomOpts{AllowProto2: true, ReservedNames: true})
+		set := shapesdesc.RandomSet(t, shapesdesc.RandomOpts{AllowProto2: true, ReservedNames: true, Extensions: true, Services: true})
 		needDesc := false
 		for _, f := range set {
 			for _, d := range f.Dependency {
